@@ -486,10 +486,20 @@ func (cc *cacheController) flush() {
 	for k, sem := range cc.l1RLockSems {
 		sem.RUnlock()
 		delete(cc.l1RLockSems, k)
+		cc.dropUnownedLine(k)
 	}
 	for k, sem := range cc.l1LockSems {
 		sem.Unlock()
 		delete(cc.l1LockSems, k)
+		cc.dropUnownedLine(k)
+	}
+}
+
+// dropUnownedLine removes from L1 a line that an aborted request has already
+// fetched but whose protocol state is still invalid.
+func (cc *cacheController) dropUnownedLine(addr comp.AlignedAddress) {
+	if cc.msi.states[msiEntry{cc.id, addr}] == invalid {
+		_, _ = cc.l1d.EvictCacheLine(addr)
 	}
 }
 
